@@ -20,7 +20,10 @@
   * `lc` is the generated `last_changed_revision` for LOW..HIGH, and for NEVER_CHANGE on every
     REACHABLE state of `Core` (the slot that does not exist reads `Revision::start()`; the model
     keeps `lch 3 = 1`);
-  * the input-field comparison used by `depInfo`-style verification is `revisions[f] > rev`.
+  * the input-field comparison of deep verification is `revisions[f] > rev`, a field read reports the field's own stamps;
+  * READS: `frame0` = generated `ActiveQuery::new`; `Frame.push` = generated `add_read_simple` / `add_read` (stamps by
+    max / min, edge recorded iff durability ≠ NEVER_CHANGE — or, with accumulators, the accumulated flag — in the
+    non-persistence build); `Frame.pushCell` = generated `add_untracked_read`.
   Both seeded edits of `report_tracked_write` (C02-1: only the written slot; C01-2: only level d)
   break `genlogic_rt_report` (the closed form below), as does any change of the slice bounds.
 -/
@@ -68,6 +71,9 @@ theorem genlogic_rt_last_changed (c : Nat) (l : Nat → Nat) (d : Nat) :
 theorem genlogic_rt_panics (d : Nat) (h : d ≤ 3) : reportTrackedWritePanics d = decide (d ≥ 3) := by
   have : d = 0 ∨ d = 1 ∨ d = 2 ∨ d = 3 := by omega
   rcases this with h | h | h | h <;> subst h <;> decide
+
+theorem bne3 (n : Nat) : (n != 3) = !decide (n = 3) := by
+  by_cases h : n = 3 <;> simp [h]
 
 theorem revs_congr {c c' : Nat} {l l' : Nat → Nat} (hc : c = c') (h1 : l 1 = l' 1) (h2 : l 2 = l' 2) :
     revs c l = revs c' l' := by simp [revs, hc, h1, h2]
@@ -188,6 +194,20 @@ theorem genlogic_rt_core_input_changed (mc : McaFn) (s : State) (i rev : Nat) :
 theorem genlogic_rt_core_input_read (fe : FetchFn) (s : State) (i : Nat) :
     ((readDep fe s (.inp i)).2.dur, (readDep fe s (.inp i)).2.ca) = fieldRead (stampC s i) := rfl
 
+/-! reads: `Frame` is the running `ActiveQuery` -/
+def astC (f : Frame) : ActiveStamp := ⟨f.ca, f.dur, false⟩
+
+theorem genlogic_rt_core_frame0 : astC frame0 = activeNew := by decide
+
+/-- `Frame.push` = the generated `add_read_simple` (inputs) = the generated `add_read` of a dependency without cycle
+    heads or accumulated values (functions), non-persistence build: stamps AND whether the edge is recorded -/
+theorem genlogic_rt_core_push (f : Frame) (d : Dep) (r : Res) :
+    addReadSimple (astC f) r.dur r.ca false = (astC (f.push d r), decide (r.dur ≠ 3)) ∧
+    addRead (astC f) r.dur r.ca true false false false = (astC (f.push d r), decide (r.dur ≠ 3), false) ∧
+    (f.push d r).obs = f.obs ++ [⟨d, r.val, (addReadSimple (astC f) r.dur r.ca false).2⟩] := by
+  refine ⟨?_, ?_, ?_⟩ <;>
+    simp [addReadSimple, addRead, astC, Frame.push, Consts.Durability_NeverChange, bne3]
+
 end Core
 
 /-! ## Model/Core3 (kinds, cells, LRU) -/
@@ -222,6 +242,22 @@ theorem genlogic_rt_core3_write (s : State) (i v : Nat) (nd : Option Nat) (h : (
 theorem genlogic_rt_core3_input_changed (mc : McaFn) (s : State) (i rev : Nat) :
     (depChanged mc s (.inp i) rev).2 = fieldChangedAfter (stamp3 s i) rev := rfl
 
+def ast3 (f : Frame) : ActiveStamp := ⟨f.ca, f.dur, f.untracked⟩
+
+theorem genlogic_rt_core3_frame0 : ast3 frame0 = activeNew := by decide
+
+theorem genlogic_rt_core3_push (f : Frame) (d : Dep) (r : Res) :
+    addReadSimple (ast3 f) r.dur r.ca false = (ast3 (f.push d r), decide (r.dur ≠ 3)) ∧
+    addRead (ast3 f) r.dur r.ca true false false false = (ast3 (f.push d r), decide (r.dur ≠ 3), false) ∧
+    (f.push d r).obs = f.obs ++ [⟨d, r.val, (addReadSimple (ast3 f) r.dur r.ca false).2⟩] := by
+  refine ⟨?_, ?_, ?_⟩ <;>
+    simp [addReadSimple, addRead, ast3, Frame.push, Consts.Durability_NeverChange, bne3]
+
+/-- an untracked read (`report_untracked_read(current_revision)`): stamps overwritten, no edge -/
+theorem genlogic_rt_core3_push_cell (f : Frame) (cur c v : Nat) :
+    addUntrackedRead (ast3 f) cur = ast3 (f.pushCell cur c v) := by
+  simp [addUntrackedRead, ast3, Frame.pushCell, Consts.Durability_Low]
+
 end Core3
 
 /-! ## Model/CoreSpec (tracked structs, specify) -/
@@ -246,6 +282,17 @@ theorem genlogic_rt_spec_write (s : State) (i v : Nat) (nd : Option Nat) (h : (s
 theorem genlogic_rt_spec_input_changed (mc : McaFn) (SB : Nat → Nat → Body) (s : State) (i rev : Nat) :
     (depChanged mc SB s (.inp i) rev).2 = fieldChangedAfter (stampS s i) rev := rfl
 
+def astS (f : Frame) : ActiveStamp := ⟨f.ca, f.dur, false⟩
+
+theorem genlogic_rt_spec_frame0 (seed : Option Nat) : astS (frame0 seed) = activeNew := by
+  simp [astS, frame0, activeNew, Revision_start, Consts.Durability_NeverChange]
+
+theorem genlogic_rt_spec_push (f : Frame) (d : Dep) (r : Res) :
+    addReadSimple (astS f) r.dur r.ca false = (astS (f.push d r), decide (r.dur ≠ 3)) ∧
+    addRead (astS f) r.dur r.ca true false false false = (astS (f.push d r), decide (r.dur ≠ 3), false) := by
+  refine ⟨?_, ?_⟩ <;>
+    simp [addReadSimple, addRead, astS, Frame.push, Consts.Durability_NeverChange, bne3]
+
 end CoreSpec
 
 /-! ## Model/CoreAcc (accumulators) -/
@@ -269,6 +316,21 @@ theorem genlogic_rt_acc_write (s : State) (i v : Nat) (nd : Option Nat) (h : (s.
 
 theorem genlogic_rt_acc_input_changed (mc : McaFn) (s : State) (i rev : Nat) :
     (depChanged mc s (.inp i) rev).2.1 = fieldChangedAfter (stampA s i) rev := rfl
+
+def astA (f : Frame) : ActiveStamp := ⟨f.ca, f.dur, false⟩
+
+theorem genlogic_rt_acc_frame0 : astA frame0 = activeNew := by decide
+
+/-- with accumulators: the edge of a NEVER_CHANGE dependency is kept iff it has, or transitively reads,
+    accumulated values, and the frame's `accumulated_inputs` is OR-ed with exactly that flag -/
+theorem genlogic_rt_acc_push (f : Frame) (d : Dep) (r : Res) :
+    addRead (astA f) r.dur r.ca true r.hasAcc r.accIn false =
+      (astA (f.push d r), decide (r.dur ≠ 3) || (r.hasAcc || r.accIn), (r.hasAcc || r.accIn)) ∧
+    (f.push d r).accIn = (f.accIn || (addRead (astA f) r.dur r.ca true r.hasAcc r.accIn false).2.2) ∧
+    (f.push d r).obs = f.obs ++ [⟨d, r.val, (addRead (astA f) r.dur r.ca true r.hasAcc r.accIn false).2.1⟩] := by
+  refine ⟨?_, ?_, ?_⟩ <;>
+    cases h1 : r.hasAcc <;> cases h2 : r.accIn <;>
+    simp [addRead, astA, Frame.push, Consts.Durability_NeverChange, bne3, h1, h2]
 
 end CoreAcc
 
